@@ -107,10 +107,11 @@ def frame(content: bytes, case) -> tuple[bytes, bytes]:
 class OneShot(fakenet.Endpoint):
     """Answers every request with the prepared bytes (then EOF when asked)."""
 
-    def __init__(self, raw: bytes, seg=None, eof: bool = False, second: bytes | None = None):
+    def __init__(self, raw: bytes, seg=None, eof: bool = False, second: bytes | None = None, drop_first: bool = False):
         super().__init__()
         self.raw, self.seg, self.eof, self.second = raw, seg, eof, second
         self.served = 0
+        self.drop_first = drop_first  # the first request is answered by closing the connection (the client retries)
 
     def on_send(self, sock, data):
         sock.tx += data
@@ -119,6 +120,10 @@ class OneShot(fakenet.Endpoint):
         msgs, _, _ = reqwire.parse_stream(bytes(sock.tx))
         while sock.state.get("answered", 0) < len(msgs):
             sock.state["answered"] = sock.state.get("answered", 0) + 1
+            if self.drop_first:
+                self.drop_first = False
+                sock.rx.append(fakenet.EOF)
+                continue
             self.served += 1
             if self.served == 1 or self.second is None:
                 self.reply(sock, self.raw, self.seg, then="eof" if self.eof else None)
